@@ -493,6 +493,12 @@ func globGen(w *bufio.Writer, args map[string]string) {
 			fmt.Fprintf(w, "T %s P %s\n", tr, p)
 		}
 	}
+	// a backslash escapes the next character of a pattern: files with a star, a question mark, a brace in their NAMES
+	for _, p := range []string{`a\**.x`, `a\*b.x`, `\**`, `m\ain.x`, `main\.x`, `*\.x`, `sub/\s.x`, `a\?*.x`, `**/a\*.x`, `a*.x`, `a?*.x`} {
+		for _, tr := range []string{"f:a*b.x,f:a*.x,f:ab.x,f:a/x.x,f:main.x,f:sub/s.x,f:a?c.x,f:aXc.x,f:{b}.x,f:sub/a*.x", "f:ab.x,f:a/x.x,f:main.x"} {
+			fmt.Fprintf(w, "T %s P %s\n", tr, p)
+		}
+	}
 	for _, l := range []string{"sub", "sub/deep", "main.x", "sub/a.x", "sub/empty", "sub,main.x", ".hid"} {
 		for _, p := range patterns {
 			fmt.Fprintf(w, "T f:main.x,f:sub/a.x,f:sub/deep/b.x,f:.h.x,d:sub/empty,f:.hid/c.x P %s L %s\n", p, l)
